@@ -398,16 +398,20 @@ def replace_matching_item(
                 output_line = compiled_re.sub(_LINE_SCRUBBED_MESSAGE, output_line)
                 break
 
-            # This is text preceding the password and shouldn't be anonymized
-            prefix = match.group("prefix") if "prefix" in match.groupdict() else ""
-            # re.sub replaces the entire matching string, which includes prefix
-            # Therefore, anon_val should have prefix prepended if applicable
-            anon_val = prefix + _anonymize_value(
-                match.group(sensitive_item_num), pwd_lookup, reserved_words, salt
-            )
-            # Substitute via a function so that anon_val is taken literally (a plain
-            # string would be interpreted as a template: backslashes, group references)
-            output_line = compiled_re.sub(lambda _match: anon_val, output_line)
+            def _replacement(match, item_num=sensitive_item_num):
+                # This is text preceding the password and shouldn't be anonymized
+                prefix = match.group("prefix") if "prefix" in match.groupdict() else ""
+                # re.sub replaces the entire matching string, which includes prefix
+                # Therefore, the replacement should have prefix prepended if applicable
+                return prefix + _anonymize_value(
+                    match.group(item_num), pwd_lookup, reserved_words, salt
+                )
+
+            # Substitute via a function so that the replacement is taken literally (a
+            # plain string would be interpreted as a template: backslashes, group
+            # references) and so that every occurrence on the line gets the
+            # replacement of its own value, not that of the first occurrence
+            output_line = compiled_re.sub(_replacement, output_line)
 
         # If any matches existed in this regex group, stop processing more regexes
         if match_found:
